@@ -340,25 +340,76 @@ Definition md_back (g : dgraph) (d : bool) (mdc : option smeta) (axes : option (
   | Some axs => exists axes', md_axes md' = Some axes' /\ Forall2 (axis_stored (map snd (d_nodes g))) axs axes'
   end.
 
+(* everything known about the geff a dict-based backend leaves behind (g: the dict graph handed to write_dicts) *)
+Record written_ok (cvf : pyval -> option cval) (d : bool) (g : dgraph) (mdc : option smeta) (axes : option (list (string * Z)))
+       (mdtok : Z) (post : znode) (mg : mgraph) (cg : cgraph) : Prop := {
+  wo_valid : validate_structure KObj (Some post) = Ok tt;
+  wo_read : read_to_memory KObj (Some post) true None None = Ok mg;
+  wo_wf : wf_geff mg (map fst (d_nodes g)) (map fst (d_edges g));
+  wo_nfit : props_fit (length (d_nodes g)) (g_nprops mg);
+  wo_efit : props_fit (length (d_edges g)) (g_eprops mg);
+  wo_nprops : dict_props_to_arr (map snd (d_nodes g)) (keys_of (map snd (d_nodes g))) = Ok (g_nprops mg);
+  wo_eprops : dict_props_to_arr (map snd (d_edges g)) (keys_of (map snd (d_edges g))) = Ok (g_eprops mg);
+  wo_nkeys : akeys (g_nprops mg) = keys_of (map snd (d_nodes g));
+  wo_ekeys : akeys (g_eprops mg) = keys_of (map snd (d_edges g));
+  wo_nids : g_nids mg = mkarr DU64 [length (d_nodes g)] (map fst (d_nodes g));
+  wo_canon : canon_geff mg = Ok cg;
+  wo_same : same_graph cvf d g cg;
+  wo_md : md_back g d mdc axes mdtok (g_md mg)
+}.
+
+Lemma dicts_written_md cvf d g mdc axes mdtok m : dom_dicts cvf d g -> args_dom g mdc axes ->
+  dict_md mdc d axes mdtok = Ok m ->
+  exists tr post mg cg,
+    write_dicts KObj g (keys_of (map snd (d_nodes g))) (keys_of (map snd (d_edges g))) m (init None) = (mkst (Some post) tr, Ok tt) /\
+    written_ok cvf d g mdc axes mdtok post mg cg.
+Proof.
+  intros Hdom Hargs Hm0. destruct (args_dom_md g mdc axes d mdtok Hargs) as [m' [Hm [Hmd [Hdir [Hax Htok]]]]].
+  rewrite Hm0 in Hm. inversion Hm; subst m'; clear Hm.
+  destruct (dicts_roundtrip_md cvf KObj d g m Hdom Hdir Hmd)
+    as (tr & post & mg & cg & Hw & Hval & Hrd & Hwf & Hd & Ht & Hkn & Hke & Haxes & Hfn & Hfe & Hdn & Hde & Hakn & Hake & Hnids & Hc & Hcd & Hn & He & Hna & Hea).
+  exists tr, post, mg, cg. split; [exact Hw|]. rewrite !map_length in *.
+  constructor; auto.
+  - unfold same_graph. repeat split; auto.
+  - unfold md_back. rewrite <- Hax, <- Htok. auto.
+Qed.
+
+Theorem nx_written_md cvf d g mdc axes mdtok : dom_dicts cvf d g -> args_dom g mdc axes ->
+  exists post mg cg,
+    run (api_write KObj (nx_write_md KObj d g mdc axes mdtok)) None = (Some post, Ok tt) /\
+    written_ok cvf d g mdc axes mdtok post mg cg.
+Proof.
+  intros Hdom Hargs. destruct (args_dom_md g mdc axes d mdtok Hargs) as [m [Hm _]].
+  destruct (dicts_written_md cvf d g mdc axes mdtok m Hdom Hargs Hm) as [tr [post [mg [cg [Hw Hok]]]]].
+  exists post, mg, cg. split; [|exact Hok].
+  apply (run_api_write KObj _ post tr). unfold nx_write_md, bind, lift. rewrite Hm. exact Hw.
+Qed.
+
+Theorem rx_written_md cvf d g idmap g' mdc axes mdtok : rx_target idmap g = Ok g' -> dom_dicts cvf d g' -> args_dom g' mdc axes ->
+  exists post mg cg,
+    run (api_write KObj (rx_write_md KObj d g idmap mdc axes mdtok)) None = (Some post, Ok tt) /\
+    written_ok cvf d g' mdc axes mdtok post mg cg.
+Proof.
+  intros Htg Hdom Hargs. destruct (args_dom_md g' mdc axes d mdtok Hargs) as [m [Hm _]].
+  destruct (dicts_written_md cvf d g' mdc axes mdtok m Hdom Hargs Hm) as [tr [post [mg [cg [Hw Hok]]]]].
+  exists post, mg, cg. split; [|exact Hok].
+  apply (run_api_write KObj _ post tr). unfold rx_write_md, bind, lift. rewrite Hm, Htg. exact Hw.
+Qed.
+
+(* the same-library round trips with every metadata call shape *)
 Theorem nx_roundtrip_md cvf d g mdc axes mdtok : dom_dicts cvf d g -> args_dom g mdc axes ->
   exists post mg cg,
     run (api_write KObj (nx_write_md KObj d g mdc axes mdtok)) None = (Some post, Ok tt) /\
     validate_structure KObj (Some post) = Ok tt /\
     read_to_memory KObj (Some post) true None None = Ok mg /\
-    nx_construct mg = Ok cg /\ canon_geff mg = Ok cg /\
+    nx_construct mg = Ok cg /\
     same_graph cvf d g cg /\
     md_back g d mdc axes mdtok (g_md mg).
 Proof.
-  intros Hdom Hargs. destruct (args_dom_md g mdc axes d mdtok Hargs) as [m [Hm [Hmd [Hdir [Hax Htok]]]]].
-  destruct (dicts_roundtrip_md cvf KObj d g m Hdom Hdir Hmd)
-    as (tr & post & mg & cg & Hw & Hval & Hrd & Hwf & Hd & Ht & Hkn & Hke & Haxes & _ & _ & _ & _ & _ & _ & _ & Hc & Hcd & Hn & He & Hna & Hea).
-  exists post, mg, cg. split; [|split; [exact Hval|split; [exact Hrd|split; [|split; [exact Hc|split]]]]].
-  - apply (run_api_write KObj _ post tr). unfold nx_write_md, bind, lift. rewrite Hm. exact Hw.
-  - eapply nx_construct_canon; eauto.
-  - unfold same_graph. repeat split; auto.
-    + intros i name Hi. apply Hna. rewrite map_length. exact Hi.
-    + intros j name Hj. apply Hea. rewrite map_length. exact Hj.
-  - unfold md_back. rewrite <- Hax, <- Htok. auto.
+  intros Hdom Hargs. destruct (nx_written_md cvf d g mdc axes mdtok Hdom Hargs) as [post [mg [cg [Hw Hok]]]].
+  exists post, mg, cg. split; [exact Hw|]. split; [exact (wo_valid _ _ _ _ _ _ _ _ _ Hok)|]. split; [exact (wo_read _ _ _ _ _ _ _ _ _ Hok)|].
+  split; [eapply nx_construct_canon; [exact (wo_wf _ _ _ _ _ _ _ _ _ Hok) | exact (wo_canon _ _ _ _ _ _ _ _ _ Hok)]|].
+  split; [exact (wo_same _ _ _ _ _ _ _ _ _ Hok) | exact (wo_md _ _ _ _ _ _ _ _ _ Hok)].
 Qed.
 
 Theorem rx_roundtrip_md cvf d g idmap g' mdc axes mdtok : rx_target idmap g = Ok g' -> dom_dicts cvf d g' -> args_dom g' mdc axes ->
@@ -366,18 +417,14 @@ Theorem rx_roundtrip_md cvf d g idmap g' mdc axes mdtok : rx_target idmap g = Ok
     run (api_write KObj (rx_write_md KObj d g idmap mdc axes mdtok)) None = (Some post, Ok tt) /\
     validate_structure KObj (Some post) = Ok tt /\
     read_to_memory KObj (Some post) true None None = Ok mg /\
-    rx_construct mg = Ok r /\ canon_rx r = Some cg /\ canon_geff mg = Ok cg /\
+    rx_construct mg = Ok r /\ canon_rx r = Some cg /\
     same_graph cvf d g' cg /\
     md_back g' d mdc axes mdtok (g_md mg).
 Proof.
-  intros Htg Hdom Hargs. destruct (args_dom_md g' mdc axes d mdtok Hargs) as [m [Hm [Hmd [Hdir [Hax Htok]]]]].
-  destruct (dicts_roundtrip_md cvf KObj d g' m Hdom Hdir Hmd)
-    as (tr & post & mg & cg & Hw & Hval & Hrd & Hwf & Hd & Ht & Hkn & Hke & Haxes & Hfn & Hfe & _ & _ & _ & _ & _ & Hc & Hcd & Hn & He & Hna & Hea).
-  destruct (rx_construct_canon mg _ _ cg Hwf Hfn Hfe Hc) as [r [Hr Hcr]].
-  exists post, mg, r, cg. split; [|split; [exact Hval|split; [exact Hrd|split; [exact Hr|split; [exact Hcr|split; [exact Hc|split]]]]]].
-  - apply (run_api_write KObj _ post tr). unfold rx_write_md, bind, lift. rewrite Hm, Htg. exact Hw.
-  - unfold same_graph. repeat split; auto.
-    + intros i name Hi. apply Hna. rewrite map_length. exact Hi.
-    + intros j name Hj. apply Hea. rewrite map_length. exact Hj.
-  - unfold md_back. rewrite <- Hax, <- Htok. auto.
+  intros Htg Hdom Hargs. destruct (rx_written_md cvf d g idmap g' mdc axes mdtok Htg Hdom Hargs) as [post [mg [cg [Hw Hok]]]].
+  pose proof (wo_nfit _ _ _ _ _ _ _ _ _ Hok) as Hfn. pose proof (wo_efit _ _ _ _ _ _ _ _ _ Hok) as Hfe.
+  rewrite <- (map_length fst (d_nodes g')) in Hfn. rewrite <- (map_length fst (d_edges g')) in Hfe.
+  destruct (rx_construct_canon mg _ _ cg (wo_wf _ _ _ _ _ _ _ _ _ Hok) Hfn Hfe (wo_canon _ _ _ _ _ _ _ _ _ Hok)) as [r [Hr Hcr]].
+  exists post, mg, r, cg. split; [exact Hw|]. split; [exact (wo_valid _ _ _ _ _ _ _ _ _ Hok)|]. split; [exact (wo_read _ _ _ _ _ _ _ _ _ Hok)|].
+  split; [exact Hr|]. split; [exact Hcr|]. split; [exact (wo_same _ _ _ _ _ _ _ _ _ Hok) | exact (wo_md _ _ _ _ _ _ _ _ _ Hok)].
 Qed.
